@@ -524,6 +524,65 @@ R.ext["re.search"] = _re_test(False)
 R.ext["re.match"] = _re_test(True)
 
 
+def _re_flags(eng, args, kw, pos):
+    f = args[pos] if len(args) > pos else kw.get("flags")
+    if f is None:
+        return 0
+    if isinstance(f, Conc) and isinstance(f.v, int):
+        return int(f.v)
+    raise Unsupported("regex flags that are not a constant")
+
+
+def _re_test_flags(anchored):
+    """re.search / re.match with an optional constant `flags` argument"""
+    base = _re_test(anchored)
+
+    def h(eng, args, kw, node):
+        flags = _re_flags(eng, args, kw, 2)
+        if not flags:
+            return base(eng, args[:2], {}, node)
+        eng.used_assumptions.add("E-resub")
+        pat, s = args[0], args[1]
+        if not isinstance(pat, Conc):
+            raise Unsupported("re.search/match with a non-constant pattern")
+        from pyvc import regex as rx
+        st = eng.term(s, STR)
+        try:
+            cond = _membership(eng, pat.v, flags, st, anchored)
+        except rx.RegexUnsupported:
+            cond = z3.Bool(eng.fresh_name("re.opaque"))
+        return OptV(cond, Special("match", text=st, groups={}))
+    return h
+
+
+R.ext["re.search"] = _re_test_flags(False)
+R.ext["re.match"] = _re_test_flags(True)
+
+
+def _re_pattern_test(anchored):
+    """compiled_pattern.search / .match where the pattern object is a module-level constant of the working tree"""
+    def h(eng, args, kw, node):
+        from pyvc.repo import RePattern
+        from pyvc import regex as rx
+        pat, s = args[0], args[1]
+        if not (isinstance(pat, Conc) and isinstance(pat.v, RePattern)):
+            raise Unsupported("search/match on a pattern object that is not a constant")
+        if len(args) > 2 or kw:
+            raise Unsupported("pos/endpos arguments of Pattern.search/match")
+        eng.used_assumptions.add("E-resub")
+        st = eng.term(s, STR)
+        try:
+            cond = _membership(eng, pat.v.pattern, pat.v.flags, st, anchored)
+        except rx.RegexUnsupported:
+            cond = z3.Bool(eng.fresh_name("re.opaque"))
+        return OptV(cond, Special("match", text=st, groups={}))
+    return h
+
+
+R.ext["re.Pattern.search"] = _re_pattern_test(False)
+R.ext["re.Pattern.match"] = _re_pattern_test(True)
+
+
 # ---------------------------------------------------------------- E-strws (str whitespace methods)
 lstrip_f = uf("py_lstrip", S, S)
 lws_f = uf("py_lws", S, S)          # the leading whitespace removed by lstrip()
